@@ -32,7 +32,7 @@ RULE = ("util level (autoarray.util.transformer / inversion_interferometer_util 
         "integer preload tables incl. 0 x K tables; image_via_jit_from with n_pixels <, =, > grid rows; batches come in sibling pairs "
         "with identical shapes; every 2-D argument as C-ordered, Fortran-ordered or a strided view; every function is called twice "
         "(results must be identical) and every argument must be unchanged afterwards. All comparisons are RELATIVE to the l1 norm "
-        "of the linear argument (1e-9). Budgets: quick 36 util batches (8 ops each) + 32 geometries + 28 histories; thorough 400 + 500 + 280. "
+        "of the linear argument (1e-9). Budgets: quick 44 util batches (8 ops each) + 40 geometries + 28 histories; thorough 440 + 500 + 280. "
         "Class level: Mask2D of shape up to 5x5 (non-square, 0..16 unmasked pixels incl. outer ring, fully masked, single pixel), "
         "pixel scales (sy,sx) in {1/4..3} independently, origins k/4, baselines up to 2e5 wavelengths (phases of several turns), "
         "TransformerDFT(preload on/off).visibilities_from / image_from / transform_mapping_matrix with slim- and native-stored "
@@ -40,6 +40,21 @@ RULE = ("util level (autoarray.util.transformer / inversion_interferometer_util 
         "objects with/without regularization, explicit or config-default diagonal value).data_vector / curvature_matrix / "
         "operated_mapping_matrix (read in both orders, twice, and through a second inversion), aa.Inversion factory, plus a SIBLING "
         "inversion through the same transformer object (rows of M / data / noise rotated, regularization flags flipped). "
+        "RARE STATES are a regular part of every stream (all value vectors come from one generator): images / matrix columns / "
+        "real and imaginary parts of visibilities, data and reconstructions that cancel exactly (sum == 0.0 with non-zero l1 norm: "
+        "+a/-a dipoles and generic signed vectors closed by minus their sum), constant vectors, vectors without a positive entry, "
+        "all-zero, single non-zero entry, integers with 30-50 significant bits (exact as int64 / float64, not as float32); purely real / purely imaginary / im = -re / im = re visibilities; matrices with an all-zero "
+        "row, a column equal to or minus another, every row cancelling, one-hot 0/1 matrices; noise maps all ones / constant / "
+        "constant with real != imaginary; baseline sets all zero / u = 0 / v = 0 / u = v / +- pairs; util grids on one axis / one point "
+        "repeated / point-symmetric; tables with a zero baseline column or imaginary = -real. INPUT KINDS: the same values as int64 / "
+        "float32 / complex64 / bool arrays (one narrow argument per call, only where every value survives the round trip), "
+        "Visibilities built from a complex128 / complex64 array, a (K,2) float array, a list of pairs, a list of complex, as a "
+        "VisibilitiesNoiseMap or a user subclass; Mask2D from an array / list / inverted array + invert=True / all_false / scalar "
+        "pixel scale / origin omitted / user subclass; user subclasses of Array2D, TransformerDFT, Interferometer; preload_transform "
+        "omitted; MockLinearObjFuncList objects. ENTRY POINTS added: aa.Interferometer(transformer_class=TransformerDFT) as the "
+        "inversion's dataset, SimulatorInterferometer(noise off).via_image_from, mapped_reconstructed_data_dict (after the solve; "
+        "F, D, T re-read after it), settings / preloads omitted (shared default objects) or one caller-owned object for all "
+        "inversions of the case; every default-argument object of these entry points is fingerprinted before and after each case. "
         "Histories (one Coq case each, every step compared with the model independently): 2-4 TransformerDFT objects alive in one "
         "interpreter that differ in exactly ONE construction ingredient (mask shifted by one pixel / permuted / one pixel moved / "
         "point-reflected / reshaped with the same row-major bytes / transposed / one pixel more or fewer, pixel scales swapped, origin "
@@ -106,18 +121,121 @@ def rval(rng, sparse=False):
     if sparse and rng.random() < 0.4: return Fraction(0)
     if rng.random() < 0.3: return Fraction(rng.randint(-20, 20), 4)
     return Fraction(rng.randint(-9, 9))
-def rvals(rng, n, sparse=False, e=0):
-    out = []
-    for _ in range(n):
-        sub = rng.choice([0, 0, 0, 0, -10, -20]) if e != 0 or rng.random() < 0.15 else 0
-        out.append(rval(rng, sparse) * Fraction(2) ** (e + sub))
-    return out
-def rmat(rng, n, P, mag=True):
-    """n x P signed matrix with zeros; every COLUMN has its own magnitude"""
-    cols = [rvals(rng, n, sparse=True, e=rexp(rng, mag)) for _ in range(P)]
-    return [[cols[j][i] for j in range(P)] for i in range(n)]
-def rcv(rng, n, e=0): return list(zip(rvals(rng, n, e=e), rvals(rng, n, e=e)))
-def rnoise(rng, n, e=0): return [(rng.choice(NOISE) * Fraction(2) ** e, rng.choice(NOISE) * Fraction(2) ** e) for _ in range(n)]
+# (h) rare states constructed deliberately, a regular part of EVERY stream (util, class, inversion, histories), because
+# every linear argument is drawn through rvals / rcv / rmat: vectors whose entries CANCEL EXACTLY (sum == 0.0 in floating
+# point although the l1 norm is not: a +a/-a dipole, or a generic signed vector whose last entry is minus the sum of
+# the others), constant vectors, vectors without a positive entry, all-zero vectors, a single non-zero entry.  A shortcut
+# that tests sum / mean / max / any(> 0) / "all entries equal" instead of "all entries are zero" shows on them.
+SPECIALS = ["cancel", "cancel", "cancel", "dipole", "dipole", "const", "nonpos", "zero", "single", "wide"]
+class Quota:
+    """no stream is left to chance: per stream key, at least one linear argument in five cancels exactly (where the size allows)"""
+    def __init__(self): self.n = {}; self.c = {}; self.w = {}
+    def want(self, rng, key, size):
+        self.n[key] = self.n.get(key, 0) + 1
+        if size >= 2 and self.c.get(key, 0) * 5 < self.n[key]:
+            self.c[key] = self.c.get(key, 0) + 1; return rng.choice(["cancel", "dipole"])
+        if size >= 1 and (self.w.get(key, 0) + 1) * 7 <= self.n[key]:          # and one in seven holds wide integers
+            self.w[key] = self.w.get(key, 0) + 1; return "wide"
+        return None
+QUOTA = Quota()
+def rvals(rng, n, sparse=False, e=0, special=None, spread=True, p_special=0.45, q=None):
+    if special is None and q is not None: special = QUOTA.want(rng, q, n)
+    def one(sp):
+        sub = (rng.choice([0, 0, 0, 0, -10, -20]) if e != 0 or rng.random() < 0.15 else 0) if spread else 0
+        return rval(rng, sp) * Fraction(2) ** (e + sub)
+    def nz():
+        while True:
+            v = one(False)
+            if v != 0: return v
+    if special is None and n >= 1 and rng.random() < p_special: special = rng.choice(SPECIALS)
+    if special in ("cancel", "dipole") and n < 2: special = "const"
+    if special == "dipole":
+        out = [Fraction(0)] * n; i, j = rng.sample(range(n), 2); a = nz(); out[i] = a; out[j] = -a
+        return out
+    if special == "cancel":          # the sum of <= 12 numbers k * 2^(e-22 .. e), |k| <= 80, is a double: exact cancellation
+        out = [one(sparse) for _ in range(n - 1)]
+        if all(v == 0 for v in out): out[0] = nz()
+        out.append(-sum(out)); rng.shuffle(out)
+        return out
+    if special == "const":
+        a = nz(); return [a] * n
+    if special == "nonpos":
+        out = [-abs(one(sparse)) for _ in range(n)]
+        if all(v == 0 for v in out): out[rng.randrange(n)] = -abs(nz())
+        return out
+    if special == "wide":             # integers with 30-50 significant bits: exact as int64 / float64, NOT as float32
+        return [Fraction(rng.choice([-1, 1]) * (rng.getrandbits(rng.randint(30, 50)) | 1)) if rng.random() < 0.8 else Fraction(0) for _ in range(n)]
+    if special == "zero": return [Fraction(0)] * n
+    if special == "single":
+        out = [Fraction(0)] * n; out[rng.randrange(n)] = nz(); return out
+    return [one(sparse) for _ in range(n)]
+def rmat(rng, n, P, mag=True, q=None, mode=None):
+    """n x P signed matrix with zeros; every COLUMN has its own magnitude and is, independently, generic or one of the
+       special vectors (exactly cancelling, constant, non-positive, zero, single entry); matrix-level rare states: an
+       all-zero row (a pixel that maps nowhere), a column that is minus / equal to another one, every ROW cancelling
+       exactly, a one-hot 0/1 matrix (what a mapper produces; also passed as int / bool)"""
+    mode = mode or rng.choice(["cols"] * 7 + ["negcol", "dupcol", "rowcancel", "rowcancel", "onehot", "onehot"])
+    if mode == "onehot" and P >= 1 and n >= 1:
+        return [[Fraction(int(j == rng.randrange(P))) for j in range(P)] if rng.random() < 0.85 else [Fraction(0)] * P for _ in range(n)]
+    if mode == "rowcancel" and P >= 2 and n >= 1:
+        e = rexp(rng, mag)
+        cols = [rvals(rng, n, sparse=True, e=e, special="") for _ in range(P - 1)]
+        cols.append([-sum(c[i] for c in cols) for i in range(n)])
+    else:
+        forced = QUOTA.want(rng, q, n if P >= 1 else 0) if q is not None else None
+        jf = rng.randrange(P) if forced else None
+        cols = [rvals(rng, n, sparse=True, e=rexp(rng, mag), special=forced if j == jf else None) for j in range(P)]
+        if mode in ("negcol", "dupcol") and P >= 2 and (not forced or q is None):
+            a, b = rng.sample(range(P), 2); cols[b] = [(-v if mode == "negcol" else v) for v in cols[a]]
+    M = [[cols[j][i] for j in range(P)] for i in range(n)]
+    if n >= 2 and rng.random() < 0.12: M[rng.randrange(n)] = [Fraction(0)] * P
+    return M
+def rcv(rng, n, e=0, q=None):
+    """complex vector as (re, im) pairs; the two parts are independent (each generic or special), or the rare states:
+       purely imaginary / purely real entries, im = -re (re + im cancels in every entry), im = re"""
+    r = rng.random()
+    forced = QUOTA.want(rng, q, n) if q is not None else None
+    if forced == "wide": return list(zip(rvals(rng, n, special="wide"), rvals(rng, n, special="wide")))
+    if forced: r = 0.34
+    if n >= 1 and r < 0.07: return [(Fraction(0), b) for b in rvals(rng, n, e=e, special="")]
+    if n >= 1 and r < 0.14: return [(a, Fraction(0)) for a in rvals(rng, n, e=e, special="")]
+    if n >= 1 and r < 0.20: return [(a, -a) for a in rvals(rng, n, e=e)]
+    if n >= 1 and r < 0.24: return [(a, a) for a in rvals(rng, n, e=e)]
+    if n >= 2 and r < 0.35:           # the COMPLEX sum is exactly zero: both parts cancel
+        return list(zip(rvals(rng, n, e=e, special=rng.choice(["cancel", "dipole"])), rvals(rng, n, e=e, special=rng.choice(["cancel", "dipole", "zero"]))))
+    return list(zip(rvals(rng, n, e=e), rvals(rng, n, e=e)))
+def rnoise(rng, n, e=0):
+    r = rng.random()
+    if r < 0.08: return [(Fraction(1), Fraction(1))] * n                      # all ones: weights that "need no division"
+    if r < 0.16:
+        c = rng.choice(NOISE) * Fraction(2) ** e; return [(c, c)] * n          # one sigma everywhere, real = imaginary
+    if r < 0.24:
+        a, b = rng.sample(NOISE, 2); return [(a * Fraction(2) ** e, b * Fraction(2) ** e)] * n     # constant, real != imaginary
+    return [(rng.choice(NOISE) * Fraction(2) ** e, rng.choice(NOISE) * Fraction(2) ** e) for _ in range(n)]
+# (f) input kinds: the same VALUES through another dtype (only where every value survives the round trip, so that the
+# case stays exact): int64, float32 / complex64, bool
+def flat(v):
+    for x in v:
+        if isinstance(x, (list, tuple)): yield from flat(x)
+        else: yield Fraction(x)
+def fits(vals, kind):
+    vals = list(flat(vals))
+    if kind == "f8": return True
+    if kind == "i8": return all(v.denominator == 1 and abs(v) < 2 ** 53 for v in vals)
+    if kind == "b1": return all(v in (0, 1) for v in vals)
+    if kind == "f4":
+        try:
+            with np.errstate(all="ignore"):
+                return all(Fraction(float(np.float32(float(v)))) == v for v in vals)
+        except (OverflowError, ValueError): return False
+    return False
+def pick_dt(rng, vals, kinds=("i8", "f4"), p=0.4):
+    if "b1" in kinds and fits(vals, "b1") and any(True for _ in flat(vals)):       # a 0/1 matrix: mostly passed as bool / int
+        return rng.choice(["b1", "b1", "i8", "f4", "f8"])
+    if "i8" in kinds and fits(vals, "i8") and any(abs(v) > 2 ** 26 and not fits([v], "f4") for v in flat(vals)) and rng.random() < 0.7:
+        return "i8"                                                                 # wide integers: mostly passed as int64
+    k = rng.choice(list(kinds)) if rng.random() < p else "f8"
+    return k if fits(vals, k) else "f8"
 NOISE_EXPS = [0, 0, 0, -20, 20, -50, 50]
 
 def rgrid_uv(rng, npix, K, lattice):
@@ -131,7 +249,22 @@ def rgrid_uv(rng, npix, K, lattice):
         uv = [(Fraction(rng.randint(-40, 40), 16), Fraction(rng.randint(-40, 40), 16)) for _ in range(K)]
     if K >= 2 and rng.random() < 0.35: uv[rng.randrange(K)] = (Fraction(0), Fraction(0))         # zero baseline
     if K >= 2 and rng.random() < 0.35: uv[rng.randrange(K)] = uv[rng.randrange(K)]               # repeated baseline
+    uv = uv_special(rng, uv)
+    r = rng.random()                                  # rare grids: every point on one axis / one point repeated / symmetric pairs
+    if npix >= 1 and r < 0.06: grid = [(Fraction(0), x) for _, x in grid]
+    elif npix >= 1 and r < 0.12: grid = [(y, Fraction(0)) for y, _ in grid]
+    elif npix >= 2 and r < 0.16: grid = [grid[0]] * npix
+    elif npix >= 2 and r < 0.22: grid = [grid[i // 2] if i % 2 == 0 else (-grid[i // 2][0], -grid[i // 2][1]) for i in range(npix)]
     return grid, uv
+def uv_special(rng, uv):
+    """rare baseline sets: all zero, u = 0 for every baseline, v = 0 for every baseline, u = v, +-pairs (Hermitian)"""
+    K = len(uv); r = rng.random()
+    if K >= 1 and r < 0.05: return [(Fraction(0), Fraction(0))] * K
+    if K >= 1 and r < 0.11: return [(Fraction(0), v) for _, v in uv]
+    if K >= 1 and r < 0.17: return [(u, Fraction(0)) for u, _ in uv]
+    if K >= 1 and r < 0.20: return [(u, u) for u, _ in uv]
+    if K >= 2 and r < 0.26: return [uv[i // 2] if i % 2 == 0 else (-uv[i // 2][0], -uv[i // 2][1]) for i in range(K)]
+    return uv
 
 def rmask(rng, maxdim=5, maxpix=16):
     H, W = rng.randint(1, maxdim), rng.randint(1, maxdim)
@@ -163,13 +296,13 @@ def ruv_class(rng, K):
         else: uv.append((Fraction(rng.randint(-200, 200) * 1000), Fraction(rng.randint(-200, 200) * 1000 + rng.randint(0, 999))))
     if K >= 2 and rng.random() < 0.35: uv[rng.randrange(K)] = (Fraction(0), Fraction(0))
     if K >= 2 and rng.random() < 0.35: uv[rng.randrange(K)] = uv[rng.randrange(K)]
-    return uv
+    return uv_special(rng, uv)
 
 def npix_of(m): return sum(1 for r in m for b in r if not b)
 LAYOUTS = ["c", "c", "f", "view"]
 
 def gen_util(tier, rng):
-    n = 400 if tier == "thorough" else 36
+    n = 440 if tier == "thorough" else 44
     util_ops = ["preload", "vispre", "vis", "image", "tmmpre", "tmm", "data", "recon"]
     first = None
     for i in range(n):
@@ -191,61 +324,138 @@ def gen_util(tier, rng):
             return cur[name]
         if "grid" in keep: cur["grid"] = first["grid"]
         if "uv" in keep: cur["uv"] = first["uv"]
-        base = {"grid": cur["grid"], "uv": cur["uv"], "lattice": lattice}
+        # (f) the grid / the baselines as float32 or int64 arrays where their values allow it (lattice products stay exact)
+        base = {"grid": cur["grid"], "uv": cur["uv"], "lattice": lattice,
+                "gdt": pick_dt(rng, cur["grid"], ("f4", "i8"), 0.25), "udt": pick_dt(rng, cur["uv"], ("f4", "i8"), 0.3)}
+        # np.pi is a Python float: float32 * float32 * (-2.0 * np.pi) stays float32 (cos evaluated in single precision, a
+        # property of the INPUT dtype, not a defect): never both narrow
+        if base["gdt"] == "f4" and base["udt"] == "f4": base["udt"] = "f8"
+        def tabs(op):
+            # tables with generic small-integer entries, or rare tables: a column (baseline) of zeros, real = -imaginary
+            def make():
+                R = [[Fraction(rng.randint(-4, 4)) for _ in range(K)] for _ in range(npix)]
+                I = [[Fraction(rng.randint(-4, 4)) for _ in range(K)] for _ in range(npix)]
+                r = rng.random()
+                if K >= 1 and r < 0.1:
+                    k = rng.randrange(K)
+                    for row in R + I: row[k] = Fraction(0)
+                elif r < 0.2: I = [[-x for x in row] for row in R]
+                return Sm(R), Sm(I)
+            if "grid" in keep and first is not None and op + "R" in first: cur[op + "R"], cur[op + "I"] = first[op + "R"], first[op + "I"]
+            else: cur[op + "R"], cur[op + "I"] = make()
+            return cur[op + "R"], cur[op + "I"]
         for op in util_ops:
             d = dict(base, op=op, lay=rng.choice(LAYOUTS))
-            if op in ("vis",): d["img"] = pick("vis_img", "values", lambda: Sv(rvals(rng, npix, sparse=(i % 3 == 0), e=rexp(rng))))
+            if op in ("vis",):
+                d["img"] = pick("vis_img", "values", lambda: Sv(rvals(rng, npix, sparse=(i % 3 == 0), e=rexp(rng), q="u.vis")))
+                d["dt"] = pick_dt(rng, d["img"])
             elif op in ("vispre", "tmmpre"):
-                d.pop("grid"); d.pop("uv")
+                for k in ("grid", "uv", "gdt", "udt"): d.pop(k)
                 d["K"] = K
-                d["preR"] = pick(op + "R", "grid", lambda: Sm([[Fraction(rng.randint(-4, 4)) for _ in range(K)] for _ in range(npix)]))
-                d["preI"] = pick(op + "I", "grid", lambda: Sm([[Fraction(rng.randint(-4, 4)) for _ in range(K)] for _ in range(npix)]))
-                if op == "vispre": d["img"] = pick("vispre_img", "values", lambda: Sv(rvals(rng, npix, sparse=(i % 3 == 0), e=rexp(rng))))
+                d["preR"], d["preI"] = tabs(op)
+                if op == "vispre": d["img"] = pick("vispre_img", "values", lambda: Sv(rvals(rng, npix, sparse=(i % 3 == 0), e=rexp(rng), q="u.vispre")))
                 else:
-                    d["P"] = P; d["M"] = pick("tmmpre_M", "values", lambda: Sm(rmat(rng, npix, P)))
+                    d["P"] = P; d["M"] = pick("tmmpre_M", "values", lambda: Sm(rmat(rng, npix, P, q="u.tmmpre")))
+                # at most ONE of (linear argument, tables) in a narrower dtype: the other stays float64
+                if rng.random() < 0.5: d["dt"] = pick_dt(rng, d.get("img", d.get("M")), ("i8", "f4", "b1") if op == "tmmpre" else ("i8", "f4"))
+                else: d["tdt"] = pick_dt(rng, [d["preR"], d["preI"]], ("i8", "f4"), 0.3)
             elif op == "image":
                 r = rng.random()
                 d["n"] = npix if r < 0.7 else (rng.randint(0, npix) if r < 0.85 else npix + rng.randint(1, 2))
-                d["vis"] = pick("image_vis", "values", lambda: [Sv(v) for v in rcv(rng, K, e=rexp(rng))])
+                d["vis"] = pick("image_vis", "values", lambda: [Sv(v) for v in rcv(rng, K, e=rexp(rng), q="u.image")])
+                d["dt"] = pick_dt(rng, d["vis"])
             elif op == "tmm":
-                d["P"] = P; d["M"] = pick("tmm_M", "values", lambda: Sm(rmat(rng, npix, P)))
+                d["P"] = P; d["M"] = pick("tmm_M", "values", lambda: Sm(rmat(rng, npix, P, q="u.tmm")))
+                d["dt"] = pick_dt(rng, d["M"], ("i8", "f4", "b1"))
             elif op == "data":
                 e1, e2, e3 = rexp(rng), rexp(rng), rng.choice(NOISE_EXPS)
                 d = {"op": op, "P": P, "TM": pick("data_TM", "grid", lambda: [[Sv(c) for c in rcv(rng, P, e=e1)] for _ in range(K)]),
-                     "vis": pick("data_vis", "values", lambda: [Sv(v) for v in rcv(rng, K, e=e2)]),
+                     "vis": pick("data_vis", "values", lambda: [Sv(v) for v in rcv(rng, K, e=e2, q="u.data")]),
                      "noise": pick("data_noise", "uv", lambda: [Sv(v) for v in rnoise(rng, K, e=e3)]), "lay": d["lay"]}
+                d["vdt"] = pick_dt(rng, d["vis"], ("f4",), 0.25); d["ndt"] = pick_dt(rng, d["noise"], ("f4",), 0.25)
             elif op == "recon":
                 d = {"op": op, "P": P, "TM": pick("recon_TM", "grid", lambda: [[Sv(c) for c in rcv(rng, P, e=rexp(rng))] for _ in range(K)]),
-                     "s": pick("recon_s", "values", lambda: Sv(rvals(rng, P, e=rexp(rng)))), "lay": d["lay"]}
+                     "s": pick("recon_s", "values", lambda: Sv(rvals(rng, P, e=rexp(rng), q="u.recon"))), "lay": d["lay"]}
+                d["dt"] = pick_dt(rng, d["s"])
             yield d
         if i % 2 == 0: first = cur
 
+# (f) input kinds / construction variety at the class layer.  Every field is optional (absent = the plain form), so that
+# older corpus replays keep their meaning.
+VFORMS = ["c16", "c16", "c8", "pairs_arr", "pairs_list", "clist", "noise_cls", "sub"]
+RR_FORMS = ["sub", "c16", "noise_cls", "pairs_arr", "c8", "clist", "pairs_list"]
+def pick_vform(rng, vals, p=0.5, rr=None):
+    """how a Visibilities argument is built: complex128 / complex64 ndarray, (K,2) float ndarray, list of [re, im], list of
+       Python complex, an instance of the library SUBCLASS VisibilitiesNoiseMap, an instance of a user subclass"""
+    if len(vals) == 0: return "c16"
+    if rr is not None: f = RR_FORMS[rr % len(RR_FORMS)]          # round-robin: every form a regular part of the stream
+    elif rng.random() >= p: return "c16"
+    else: f = rng.choice(VFORMS)
+    return f if f != "c8" or fits(vals, "f4") else "c16"
+def mask_how(rng):
+    return {"form": rng.choice(["nd", "nd", "list", "invert", "all_false"]), "scalar": rng.random() < 0.5,
+            "omit_origin": rng.random() < 0.5, "sub": rng.random() < 0.25}
 def gen_class(tier, rng):
-    m = 500 if tier == "thorough" else 32
+    m = 500 if tier == "thorough" else 40
+    ninv = 0
     for i in range(m):
         g = rgeom(rng); npix = npix_of(g["m"])
         K = rng.choice([0, 1, 2, 3, 4, 6, 8]) if i % 7 == 0 else rng.choice([1, 2, 3, 4, 6, 8])
         uv = ruv_class(rng, K)
         base = {"geom": g, "uv": [Sv(u) for u in uv]}
-        if i % 9 == 0: yield dict(base, op="tgrid")
-        yield dict(base, op="tvis", preload=bool(i % 2), native=bool((i // 2) % 2),
-                   img=Sv(rvals(rng, npix, sparse=(i % 3 == 0), e=rexp(rng))))
-        yield dict(base, op="timage", preload=bool(i % 2), vis=[Sv(v) for v in rcv(rng, K, e=rexp(rng))],
-                   dot_img=Sv(rvals(rng, npix, e=rexp(rng))))
+        def kinds():          # drawn afresh for every case of this geometry
+            return {"mhow": mask_how(rng) if rng.random() < 0.6 else None, "tsub": rng.random() < 0.2,
+                    "udt": pick_dt(rng, base["uv"], ("i8", "f4"), 0.35)}
+        def pre(b):           # preload_transform: True, False, or the argument omitted (the default, on)
+            return None if b and rng.random() < 0.35 else b
+        if i % 9 == 0: yield dict(base, op="tgrid", **kinds())
+        img = Sv(rvals(rng, npix, sparse=(i % 3 == 0), e=rexp(rng), q="c.tvis"))
+        yield dict(base, op="tvis", preload=pre(bool(i % 2)), native=bool((i // 2) % 2), img=img,
+                   idt=pick_dt(rng, img), isub=rng.random() < 0.2, ind=rng.random() < 0.5, **kinds())
+        if i % 10 == 5 and npix > 0:
+            # (f) directed: an int64 image / matrix with 30-50 significant bits, slim stored, through BOTH branches (preload on /
+            # off): a buffer or conversion that narrows the input (float32, int32) loses >= 1e-8 relative
+            wimg = Sv(rvals(rng, npix, special="wide")); wM = Sm([rvals(rng, 2, special="wide") for _ in range(npix)])
+            for pb in (True, False):
+                yield dict(base, op="tvis", preload=pb, native=False, img=wimg, idt=pick_dt(rng, wimg, ("i8",), 1.0), isub=False, ind=True, **kinds())
+                yield dict(base, op="ttmm", preload=pb, P=2, M=wM, lay="c", dt=pick_dt(rng, wM, ("i8",), 1.0), **kinds())
+        vis = [Sv(v) for v in rcv(rng, K, e=rexp(rng), q="c.timage")]
+        yield dict(base, op="timage", preload=pre(bool(i % 2)), vis=vis, vform=pick_vform(rng, vis, rr=i),
+                   dot_img=Sv(rvals(rng, npix, e=rexp(rng))), **kinds())
         P = rng.choice([0, 1, 2, 3, 4]) if i % 5 == 0 else rng.choice([1, 2, 3])
-        if npix > 0:
-            yield dict(base, op="ttmm", preload=bool((i // 2) % 2), P=P, M=Sm(rmat(rng, npix, P)), lay=rng.choice(LAYOUTS))
+        if True:                      # also the fully masked geometry (0 x P matrix)
+            M = Sm(rmat(rng, npix, P, q="c.ttmm"))
+            yield dict(base, op="ttmm", preload=pre(bool((i // 2) % 2)), P=P, M=M, lay=rng.choice(LAYOUTS),
+                       dt=pick_dt(rng, M, ("i8", "f4", "b1")), **kinds())
+        if i % 2 == 1:
+            # sibling entry point: SimulatorInterferometer(noise off).via_image_from builds its own TransformerDFT over
+            # image.mask; the simulated data are the transform of the image
+            img = Sv(rvals(rng, npix, sparse=(i % 3 == 0), e=rexp(rng), p_special=0.7, q="c.sim"))
+            yield dict(base, op="sim", img=img, tclass=rng.choice(["default", "explicit", "sub"]), native=rng.random() < 0.3,
+                       **dict(kinds(), tsub=False))
         if npix > 0 and K > 0 and (tier == "thorough" or i % 2 == 0):
             nobj = rng.choice([1, 1, 2, 3])
             objs = []
             for _ in range(nobj):
-                Pi = rng.choice([1, 1, 2, 3])
-                objs.append({"P": Pi, "M": Sm(rmat(rng, npix, Pi, mag=(i % 4 == 0))), "reg": rng.random() < 0.5})
-            value = rng.choice(["default", "1/8", "1", "2", "0"])
+                Pi = 2 if (i // 2) % 4 == 1 else rng.choice([1, 1, 2, 3])
+                # one inversion in four has an object whose columns cancel one another exactly (col_b = -col_a: the
+                # transformed columns, the stacked matrix and D cancel too, F does not)
+                Mo = Sm(rmat(rng, npix, Pi, mag=(i % 4 == 0), mode="negcol")) if Pi >= 2 and (i // 2) % 4 == 1 else \
+                     Sm(rmat(rng, npix, Pi, mag=(i % 4 == 0), q="c.inv.M"))
+                objs.append({"P": Pi, "M": Mo, "reg": rng.random() < 0.5, "dt": pick_dt(rng, Mo, ("i8", "f4", "b1"), 0.3),
+                             "cls": rng.choice(["obj", "obj", "funclist"])})
+            value = rng.choice(["default", "default", "1/8", "1", "2", "0"])
             en = rng.choice(NOISE_EXPS)
-            yield dict(base, op="inv", preload=bool(i % 2), objs=objs, data=[Sv(v) for v in rcv(rng, K, e=rexp(rng))],
-                       noise=[Sv(v) for v in rnoise(rng, K, e=en)], value=value, factory=bool(i % 3 == 0),
-                       sibling=rng.choice(["M", "data", "noise", "reg"]) if i % 4 in (0, 2) else None)
+            data = [Sv(v) for v in rcv(rng, K, e=rexp(rng), q="c.inv.data")]; noise = [Sv(v) for v in rnoise(rng, K, e=en)]
+            # the dataset: DatasetInterface around a caller-built transformer, or aa.Interferometer(transformer_class=
+            # TransformerDFT) which builds its own (preload left at its default), or a user subclass of Interferometer
+            dskind = ["interface", "interferometer", "interface", "interferometer_sub"][ninv % 4]; ninv += 1
+            yield dict(base, op="inv", preload=bool(i % 2) if dskind == "interface" else True, objs=objs, data=data,
+                       noise=noise, value=value, factory=bool(i % 3 == 0),
+                       sibling=rng.choice(["M", "data", "noise", "reg"]) if i % 4 in (0, 2) else None,
+                       dskind=dskind, settings="omitted" if value == "default" and rng.random() < 0.5 else "explicit",
+                       dform=pick_vform(rng, data, rr=ninv), nform=pick_vform(rng, noise, rr=ninv // 2 + 3), recon=True,
+                       preloads=rng.choice(["omitted", "explicit"]), sib_inplace=rng.random() < 0.5, **kinds())
 
 # ---- histories: sibling transformers (differing in exactly ONE construction ingredient) alive in one interpreter, method
 # ---- calls interleaved, arguments reused / derived / edited in place
@@ -313,7 +523,7 @@ def gen_hist_one(rng, h=0):
     masks, uvs, trs = [], [], []        # python-side object tables mirrored by run_hist
     def add_mask(g, edit=None):
         if edit is None:
-            masks.append(g); steps.append({"s": "mask", "geom": g}); return len(masks) - 1
+            masks.append(g); steps.append({"s": "mask", "geom": g, "mhow": mask_how(rng) if rng.random() < 0.4 else None}); return len(masks) - 1
         masks[edit] = g; steps.append({"s": "mask", "geom": g, "edit": edit})
         for t in trs:
             if t["mask"] == edit: t["live"] = False
@@ -321,7 +531,8 @@ def gen_hist_one(rng, h=0):
     def add_uv(uv, edit=None):
         integral = all(Fraction(c).denominator == 1 for u in uv for c in u)
         if edit is None:
-            uvs.append(uv); steps.append({"s": "uv", "uv": uv, "dtype": "int" if integral and rng.random() < 0.4 else "float",
+            uvs.append(uv); steps.append({"s": "uv", "uv": uv, "dtype": "int" if integral and rng.random() < 0.4 else
+                                          "f4" if fits(uv, "f4") and rng.random() < 0.3 else "float",
                                           "lay": rng.choice(LAYOUTS)}); return len(uvs) - 1
         uvs[edit] = uv; steps.append({"s": "uv", "uv": uv, "edit": edit})
         for t in trs:
@@ -329,7 +540,8 @@ def gen_hist_one(rng, h=0):
         return edit
     def add_tr(mk, uk, preload):
         trs.append({"mask": mk, "uv": uk, "live": True, "npix": npix_of(masks[mk]["m"]), "K": len(uvs[uk]), "geom": masks[mk]})
-        steps.append({"s": "new", "mask": mk, "uv": uk, "preload": preload})
+        steps.append({"s": "new", "mask": mk, "uv": uk, "preload": preload, "omit": bool(preload) and rng.random() < 0.3,
+                      "tsub": rng.random() < 0.2})
     nid = [0]; last = {}; e_h = rexp(rng); called = set()
     def call(i, k, vals=None, mode=None, first=None):
         t = trs[i]; npix, Kt = t["npix"], t["K"]; nid[0] += 1
@@ -340,21 +552,22 @@ def gen_hist_one(rng, h=0):
             key = ("vis", npix); e = e_h if rng.random() < 0.6 else rexp(rng)
             if vals is None:
                 if key in last and rng.random() < 0.5: vals = last[key]
-                else: vals = Sv(rvals(rng, npix, sparse=rng.random() < 0.3, e=e))
-            st.update(img=vals, how=rng.choice(["slim", "native", "store_native", "sum", "scaled"]), own_mask=rng.random() < 0.5)
+                else: vals = Sv(rvals(rng, npix, sparse=rng.random() < 0.3, e=e, q="h.vis"))
+            st.update(img=vals, how=rng.choice(["slim", "native", "store_native", "sum", "scaled", "sub", "dt"]), own_mask=rng.random() < 0.5,
+                      dt=pick_dt(rng, vals, p=1.0))
         elif k == "tmm":
             if vals is None:
                 P = rng.choice([1, 2, 2, 3]); key = ("tmm", npix, P)
                 if key in last and rng.random() < 0.5: vals = last[key]
-                else: vals = Sm(rmat(rng, npix, P))
+                else: vals = Sm(rmat(rng, npix, P, q="h.tmm"))
             else: P = first["P"]; key = ("tmm", npix, P)
-            st.update(P=P, M=vals, how=rng.choice(["c", "f", "view"]))
+            st.update(P=P, M=vals, how=rng.choice(["c", "f", "view"]), dt=pick_dt(rng, vals, ("i8", "f4", "b1"), 0.3))
         else:
             key = ("image", Kt)
             if vals is None:
                 if key in last and rng.random() < 0.5: vals = last[key]
-                else: vals = [Sv(v) for v in rcv(rng, Kt, e=e_h if rng.random() < 0.6 else rexp(rng))]
-            st.update(vis=vals, how=rng.choice(["fresh", "sum"]))
+                else: vals = [Sv(v) for v in rcv(rng, Kt, e=e_h if rng.random() < 0.6 else rexp(rng), q="h.image")]
+            st.update(vis=vals, how=rng.choice(["fresh", "sum", "form"]), vform=pick_vform(rng, vals, 1.0))
         last[key] = vals
         return st
     def emit_calls():
@@ -427,6 +640,7 @@ def gen_hist(tier, rng):
         yield gen_hist_one(rng, h)
 
 def gen_inputs(tier, rng):
+    QUOTA.__init__()
     yield from gen_util(tier, rng)
     yield from gen_class(tier, rng)
     yield from gen_hist(tier, rng)
@@ -445,7 +659,14 @@ def lay(a, mode):
         v[...] = a
         return v
     return a
-def grid_arr(g, mode="c"): return lay(np.array(flm(g), dtype=float).reshape((len(g), 2)), mode)
+RK = {"f8": np.float64, "f4": np.float32, "i8": np.int64, "b1": np.bool_}
+CK = {"f8": np.complex128, "f4": np.complex64}
+def as_dt(a, kind, table=RK):
+    """the same values in another dtype; the harness itself checks that nothing was lost"""
+    b = np.asarray(a).astype(table[kind or "f8"])
+    if not np.array_equal(b.astype(np.asarray(a).dtype), np.asarray(a)): raise ValueError("harness: values do not fit dtype " + str(kind))
+    return b
+def grid_arr(g, mode="c", kind="f8"): return lay(as_dt(np.array(flm(g), dtype=float).reshape((len(g), 2)), kind), mode)
 def same(a, b):
     a, b = np.asarray(a), np.asarray(b)
     return a.shape == b.shape and a.dtype == b.dtype and bool(np.all((a == b) | ((a != a) & (b != b))))
@@ -463,19 +684,78 @@ class Watch:
         if not same(np.asarray(out), np.asarray(out2)): self.ok = False; self.why.append("second identical call returned a different result")
         self.done()
 
-def mk_mask(aa, g):
-    return aa.Mask2D(mask=np.array(g["m"], dtype=bool).reshape((len(g["m"]), len(g["m"][0]))),
-                     pixel_scales=(float(F(g["sy"])), float(F(g["sx"]))), origin=(float(F(g["oy"])), float(F(g["ox"]))))
+_SUB = {}
+def subclasses(aa):
+    """(f) trivial user subclasses of the accepted classes: dispatch on type(x) instead of isinstance shows on them"""
+    if not _SUB:
+        class VerifMask2D(aa.Mask2D): pass
+        class VerifArray2D(aa.Array2D): pass
+        class VerifVisibilities(aa.Visibilities): pass
+        class VerifTransformerDFT(aa.TransformerDFT): pass
+        class VerifInterferometer(aa.Interferometer): pass
+        _SUB.update(mask=VerifMask2D, array=VerifArray2D, vis=VerifVisibilities, tr=VerifTransformerDFT, ds=VerifInterferometer)
+    return _SUB
+def mk_mask(aa, g, how=None):
+    """Mask2D for the geometry g.  how (optional): the same mask through another constructor form -- a list of lists, the
+       inverted array with invert=True, Mask2D.all_false (when nothing is masked), a scalar pixel scale (when sy = sx), the
+       origin argument omitted (when it is (0, 0)), a user subclass"""
+    how = how or {}
+    H, W = len(g["m"]), len(g["m"][0])
+    arr = np.array(g["m"], dtype=bool).reshape((H, W))
+    sy, sx, oy, ox = float(F(g["sy"])), float(F(g["sx"])), float(F(g["oy"])), float(F(g["ox"]))
+    cls = subclasses(aa)["mask"] if how.get("sub") else aa.Mask2D
+    kw = {"pixel_scales": sy if how.get("scalar") and sy == sx else (sy, sx)}
+    if not (how.get("omit_origin") and oy == 0.0 and ox == 0.0): kw["origin"] = (oy, ox)
+    form = how.get("form", "nd")
+    if form == "all_false" and not arr.any(): return cls.all_false(shape_native=(H, W), **kw)
+    if form == "invert": return cls(mask=np.invert(arr), invert=True, **kw)
+    if form == "list": return cls(mask=[[bool(b) for b in r] for r in g["m"]], **kw)
+    return cls(mask=arr, **kw)
+def mk_vis(aa, vals, form="c16", noise=False):
+    """Visibilities (or VisibilitiesNoiseMap) holding vals = [(re, im)] through the constructor form [form]"""
+    cls = aa.VisibilitiesNoiseMap if noise or form == "noise_cls" else subclasses(aa)["vis"] if form == "sub" else aa.Visibilities
+    if form == "c8": a = as_dt(cplx(vals), "f4", CK)
+    elif form == "pairs_arr": a = np.array(flm(vals), dtype=float).reshape((len(vals), 2))
+    elif form == "pairs_list": a = flm(vals)
+    elif form == "clist": a = [complex(float(x), float(y)) for x, y in vals]
+    else: a = cplx(vals)
+    V = cls(visibilities=a)
+    if not (np.asarray(V).shape == (len(vals),) and np.array_equal(np.asarray(V), cplx(vals))):
+        raise ValueError("harness: Visibilities form " + form + " does not carry the intended values")
+    return V
+def fingerprint(o, depth=3):
+    """(g) value fingerprint of a (default-argument) object: its attributes, recursively"""
+    if isinstance(o, np.ndarray): return ("nd", o.shape, str(o.dtype), o.tobytes())
+    if isinstance(o, (list, tuple)): return tuple(fingerprint(x, depth) for x in o)
+    if isinstance(o, dict): return tuple(sorted((str(k), fingerprint(v, depth)) for k, v in o.items()))
+    if hasattr(o, "__dict__") and depth > 0 and not isinstance(o, type) and not callable(o):
+        return (type(o).__name__,) + tuple(sorted((k, fingerprint(v, depth - 1)) for k, v in vars(o).items()))
+    return repr(o)
+def default_objects(aa):
+    """the objects used as DEFAULT arguments by the entry points of this property (shared by all calls)"""
+    import inspect
+    from autoarray.inversion.inversion import factory
+    from autoarray.inversion.inversion.interferometer.abstract import AbstractInversionInterferometer
+    from autoarray.inversion.inversion.abstract import AbstractInversion
+    fs = [aa.InversionInterferometerMapping.__init__, AbstractInversionInterferometer.__init__, AbstractInversion.__init__,
+          factory.inversion_from, factory.inversion_interferometer_from, aa.Interferometer.__init__,
+          aa.SimulatorInterferometer.__init__, aa.TransformerDFT.__init__]
+    out = []
+    for f in fs:
+        for name, prm in inspect.signature(f).parameters.items():
+            if prm.default is not inspect.Parameter.empty and hasattr(prm.default, "__dict__") and not isinstance(prm.default, type):
+                out.append((f.__qualname__ + "." + name, prm.default))
+    return out
 
 def run_case(inp):
     aa = import_aa()
     from autoarray.operators import transformer_util as tu
     from autoarray.inversion.inversion.interferometer import inversion_interferometer_util as iu
-    op = inp["op"]; L = inp.get("lay", "c")
+    op = inp["op"]; L = inp.get("lay", "c"); DT = inp.get("dt")
     w = Watch()
     if "grid" in inp:
         grid = pairs(inp["grid"]); uv = pairs(inp["uv"])
-        ga, ua = w.arg("grid", grid_arr(grid, L)), w.arg("uv", grid_arr(uv, L))
+        ga, ua = w.arg("grid", grid_arr(grid, L, inp.get("gdt"))), w.arg("uv", grid_arr(uv, L, inp.get("udt")))
         nontriv = len(grid) >= 2 and any(u != (0, 0) for u in uv)
     else:
         nontriv = True
@@ -491,19 +771,20 @@ def run_case(inp):
         return fin(dict(base, coq=coq, out=short([R.tolist(), I.tolist()])))
     if op == "vispre":
         K = inp["K"]; img = Fv(inp["img"]); preR = Fm(inp["preR"]); preI = Fm(inp["preI"])
-        a = (w.arg("image", lay(np.array(fl(img)), L)), w.arg("preR", lay(arr2(preR, K), L)), w.arg("preI", lay(arr2(preI, K), L)))
+        a = (w.arg("image", lay(as_dt(np.array(fl(img)), DT), L)), w.arg("preR", lay(as_dt(arr2(preR, K), inp.get("tdt")), L)),
+             w.arg("preI", lay(as_dt(arr2(preI, K), inp.get("tdt")), L)))
         out = tu.visibilities_via_preload_jit_from(*a)
         w.twice(out, lambda: tu.visibilities_via_preload_jit_from(*a))
         coq = f"(KVisPre {cnat(K)} {cqv(img)} {cqm(preR)} {cqm(preI)} {ccv(cvout(out))})"
         return fin(dict(base, coq=coq, out=short(out.tolist()), nontrivial=len(img) >= 2 and K >= 1))
     if op == "vis":
-        img = Fv(inp["img"]); ia = w.arg("image", lay(np.array(fl(img)), L))
+        img = Fv(inp["img"]); ia = w.arg("image", lay(as_dt(np.array(fl(img)), DT), L))
         out = tu.visibilities_jit(ia, ga, ua)
         w.twice(out, lambda: tu.visibilities_jit(ia, ga, ua))
         return fin(dict(base, coq=f"(KVis {cqv(img)} {ccv(grid)} {ccv(uv)} {ccv(cvout(out))})", out=short(out.tolist())))
     if op == "image":
         vis = pairs(inp["vis"]); n = inp["n"]
-        va = w.arg("visibilities", lay(np.array(flm(vis), dtype=float).reshape((len(vis), 2)), L))
+        va = w.arg("visibilities", lay(as_dt(np.array(flm(vis), dtype=float).reshape((len(vis), 2)), DT), L))
         try:
             o = tu.image_via_jit_from(n, ga, ua, va); out = ("ok", rvout(o))
             w.twice(o, lambda: tu.image_via_jit_from(n, ga, ua, va))
@@ -512,20 +793,21 @@ def run_case(inp):
         return fin(dict(base, coq=f"(KImage {cnat(n)} {ccv(grid)} {ccv(uv)} {ccv(vis)} {cres(out, cqv)})", out=short(out)))
     if op == "tmmpre":
         K, P = inp["K"], inp["P"]; M = Fm(inp["M"]); preR = Fm(inp["preR"]); preI = Fm(inp["preI"])
-        a = (w.arg("mapping_matrix", lay(arr2(M, P), L)), w.arg("preR", arr2(preR, K)), w.arg("preI", arr2(preI, K)))
+        a = (w.arg("mapping_matrix", lay(as_dt(arr2(M, P), DT), L)), w.arg("preR", as_dt(arr2(preR, K), inp.get("tdt"))),
+             w.arg("preI", as_dt(arr2(preI, K), inp.get("tdt"))))
         out = tu.transformed_mapping_matrix_via_preload_jit_from(*a)
         w.twice(out, lambda: tu.transformed_mapping_matrix_via_preload_jit_from(*a))
         coq = f"(KTmmPre {cnat(K)} {cnat(P)} {cqm(M)} {cqm(preR)} {cqm(preI)} {ccm(cmout(out))})"
         return fin(dict(base, coq=coq, out=short(out.tolist()), nontrivial=len(M) >= 2 and K >= 1 and P >= 1))
     if op == "tmm":
-        P = inp["P"]; M = Fm(inp["M"]); ma = w.arg("mapping_matrix", lay(arr2(M, P), L))
+        P = inp["P"]; M = Fm(inp["M"]); ma = w.arg("mapping_matrix", lay(as_dt(arr2(M, P), DT), L))
         out = tu.transformed_mapping_matrix_jit(ma, ga, ua)
         w.twice(out, lambda: tu.transformed_mapping_matrix_jit(ma, ga, ua))
         return fin(dict(base, coq=f"(KTmm {cnat(P)} {cqm(M)} {ccv(grid)} {ccv(uv)} {ccm(cmout(out))})", out=short(out.tolist())))
     if op == "data":
         P = inp["P"]; TM = [pairs(r) for r in inp["TM"]]; vis = pairs(inp["vis"]); noise = pairs(inp["noise"])
         tm = w.arg("transformed_mapping_matrix", lay(np.array([[complex(float(a), float(b)) for a, b in r] for r in TM], dtype=complex).reshape((len(TM), P)), L))
-        va, na = w.arg("visibilities", cplx(vis)), w.arg("noise_map", cplx(noise))
+        va, na = w.arg("visibilities", as_dt(cplx(vis), inp.get("vdt"), CK)), w.arg("noise_map", as_dt(cplx(noise), inp.get("ndt"), CK))
         out = iu.data_vector_via_transformed_mapping_matrix_from(tm, va, na)
         w.twice(out, lambda: iu.data_vector_via_transformed_mapping_matrix_from(tm, va, na))
         return fin(dict(base, coq=f"(KData {cnat(P)} {ccm(TM)} {ccv(vis)} {ccv(noise)} {cqv(rvout(out))})", out=short(out.tolist()),
@@ -533,7 +815,7 @@ def run_case(inp):
     if op == "recon":
         P = inp["P"]; TM = [pairs(r) for r in inp["TM"]]; s = Fv(inp["s"])
         tm = w.arg("transformed_mapping_matrix", lay(np.array([[complex(float(a), float(b)) for a, b in r] for r in TM], dtype=complex).reshape((len(TM), P)), L))
-        sa = w.arg("reconstruction", np.array(fl(s)))
+        sa = w.arg("reconstruction", as_dt(np.array(fl(s)), DT))
         out = iu.mapped_reconstructed_visibilities_from(tm, sa)
         w.twice(out, lambda: iu.mapped_reconstructed_visibilities_from(tm, sa))
         return fin(dict(base, coq=f"(KRecon {ccm(TM)} {cqv(s)} {ccv(cvout(out))})", out=short(out.tolist()),
@@ -549,43 +831,75 @@ def l1f(v): return float(sum(abs(Fraction(x)) for x in v))
 
 def run_class(aa, inp, base):
     op = inp["op"]; g = inp["geom"]; uv = pairs(inp["uv"])
-    mask = mk_mask(aa, g)
+    mask = mk_mask(aa, g, inp.get("mhow"))
     npix = npix_of(g["m"])
-    ua = np.array(flm(uv), dtype=float).reshape((len(uv), 2))
+    ua = as_dt(np.array(flm(uv), dtype=float).reshape((len(uv), 2)), inp.get("udt"))
     base["nontrivial"] = npix >= 2 and any(u != (0, 0) for u in uv)
     G = cgeom(g); U = ccv(uv); Pi = cq(PI)
     w = Watch(); w.arg("uv_wavelengths", ua); w.arg("real_space_mask", mask)
-    def tr(preload): return aa.TransformerDFT(uv_wavelengths=ua, real_space_mask=mask, preload_transform=preload)
+    defaults = default_objects(aa); fp0 = [fingerprint(d) for _, d in defaults]
+    def tr(preload, sub=False, m=None):
+        cls = subclasses(aa)["tr"] if sub else aa.TransformerDFT
+        kw = {} if preload is None else {"preload_transform": preload}         # None: the argument omitted (default: on)
+        return cls(uv_wavelengths=ua, real_space_mask=mask if m is None else m, **kw)
+    pre_model = True if inp.get("preload") is None else inp["preload"]
     def fin(d):
         w.done()
-        if not w.ok: d["py_ok"] = False; d["detail"] = "; ".join(w.why)
+        for (name, dobj), f0 in zip(defaults, fp0):
+            if fingerprint(dobj) != f0: w.ok = False; w.why.append("shared default argument object modified: " + name)
+        if not w.ok: d["py_ok"] = False; d["detail"] = "; ".join(w.why + [str(d.get("detail") or "")])
         return d
     if op == "tgrid":
-        t = tr(False)
+        t = tr(False, inp.get("tsub"))
         out = [(frac(y), frac(x)) for y, x in np.array(t.grid).reshape((npix, 2))]
         ok = tuple(t.shape) == (len(uv), npix) and t.total_image_pixels == npix and t.total_visibilities == len(uv)
         return fin(dict(base, coq=f"(KTGrid {Pi} {G} {ccv(out)})", out=short(out), py_ok=ok))
     if op == "tvis":
         img = Fv(inp["img"]); sc = l1f(img)
-        def image(native):
-            im = aa.Array2D(values=fl(img), mask=mask)
+        def image(native, plain=True):
+            if plain: return aa.Array2D(values=fl(img), mask=mk_mask(aa, g)).native if native else aa.Array2D(values=fl(img), mask=mk_mask(aa, g))
+            vals = as_dt(np.array(fl(img)), inp.get("idt"))                          # int64 / float32 / float64 values
+            cls = subclasses(aa)["array"] if inp.get("isub") else aa.Array2D
+            im = cls(values=vals if inp.get("ind") or inp.get("idt") not in (None, "f8") else fl(img), mask=mask)
             return im.native if native else im
-        t = tr(inp["preload"]); im0 = w.arg("image", image(inp["native"]))
-        out = np.array(t.visibilities_from(image=im0))
+        t = tr(inp["preload"], inp.get("tsub")); im0 = w.arg("image", image(inp["native"], plain=False))
+        if not same(np.array(im0.slim, dtype=float), np.array(fl(img))): raise ValueError("harness: image does not carry the intended values")
+        res = t.visibilities_from(image=im0); out = np.array(res)
+        if not (isinstance(res, aa.Visibilities) and out.dtype == np.complex128 and out.shape == (len(uv),)):
+            w.ok = False; w.why.append("visibilities_from: type / dtype / shape of the result")
         w.twice(out, lambda: np.array(t.visibilities_from(image=im0)))       # the same object evaluated twice
-        # relations: preload on = off; native storage = slim storage
-        others = [np.array(tr(p).visibilities_from(image=image(nat))) for p in (True, False) for nat in (True, False)]
+        # relations: preload on = off; native storage = slim storage (plain classes, plain float images)
+        others = [np.array(aa.TransformerDFT(uv_wavelengths=np.array(flm(uv), dtype=float).reshape((len(uv), 2)), real_space_mask=mk_mask(aa, g),
+                                             preload_transform=p_).visibilities_from(image=image(nat)))
+                  for p_ in (True, False) for nat in (True, False)]
         ok = all(close(o, out, sc) for o in others)
-        return fin(dict(base, coq=f"(KTVis {Pi} {G} {U} {cbool(inp['preload'])} {cqv(img)} {ccv(cvout(out))})", out=short(out.tolist()),
+        return fin(dict(base, coq=f"(KTVis {Pi} {G} {U} {cbool(pre_model)} {cqv(img)} {ccv(cvout(out))})", out=short(out.tolist()),
                         py_ok=ok, detail=None if ok else short([o.tolist() for o in others])))
+    if op == "sim":
+        # SimulatorInterferometer with the noise switched off: data = transform of the image through a TransformerDFT that the
+        # simulator builds itself over image.mask (preload at its default)
+        img = Fv(inp["img"])
+        im = aa.Array2D(values=fl(img), mask=mask); im0 = w.arg("image", im.native if inp.get("native") else im)
+        kw = {} if inp["tclass"] == "default" else {"transformer_class": subclasses(aa)["tr"] if inp["tclass"] == "sub" else aa.TransformerDFT}
+        sim = aa.SimulatorInterferometer(uv_wavelengths=ua, exposure_time=1.0, noise_sigma=None, **kw)
+        ds = sim.via_image_from(image=im0)
+        out = np.array(ds.data)
+        ds2 = sim.via_image_from(image=im0)                                     # the same simulator object again
+        ok = (same(out, np.array(ds2.data)) and isinstance(ds.transformer, aa.TransformerDFT)
+              and same(np.array(ds.noise_map), np.full((len(uv),), 0.1 + 0.1j))
+              and same(np.array(ds.uv_wavelengths, dtype=float), np.array(flm(uv), dtype=float).reshape((len(uv), 2)))
+              and same(np.array(ds.transformer.visibilities_from(image=im0)), out)
+              and isinstance(ds.data, aa.Visibilities) and isinstance(ds.noise_map, aa.VisibilitiesNoiseMap))
+        return fin(dict(base, coq=f"(KTVis {Pi} {G} {U} true {cqv(img)} {ccv(cvout(out))})", out=short(out.tolist()), py_ok=ok))
     if op == "timage":
         vis = pairs(inp["vis"])
-        t = tr(inp["preload"])
-        V = w.arg("visibilities", aa.Visibilities(visibilities=cplx(vis)))
+        t = tr(inp["preload"], inp.get("tsub"))
+        V = w.arg("visibilities", mk_vis(aa, vis, inp.get("vform", "c16")))
         res = t.image_from(visibilities=V)
         out = np.array(res.slim)
         w.twice(out, lambda: np.array(t.image_from(visibilities=V).slim))
         ok = res.shape_native == mask.shape_native and bool(np.all(np.array(res.native)[np.array(mask)] == 0.0))
+        ok = ok and out.dtype == np.float64 and isinstance(res, aa.Array2D)
         # adjoint (dot) test: Re <V, A I> = <image_from(V), I>
         I = Fv(inp["dot_img"])
         AI = np.array(t.visibilities_from(image=aa.Array2D(values=fl(I), mask=mask)))
@@ -594,36 +908,48 @@ def run_class(aa, inp, base):
         return fin(dict(base, coq=f"(KTImage {Pi} {G} {U} {ccv(vis)} {cqv(rvout(out))})", out=short(out.tolist()), py_ok=ok,
                         detail=None if ok else short([lhs, rhs])))
     if op == "ttmm":
-        P = inp["P"]; M = Fm(inp["M"]); Ma = w.arg("mapping_matrix", lay(arr2(M, P), inp.get("lay", "c")))
+        P = inp["P"]; M = Fm(inp["M"]); Ma = w.arg("mapping_matrix", lay(as_dt(arr2(M, P), inp.get("dt")), inp.get("lay", "c")))
         cs = [l1f([r[j] for r in M]) for j in range(P)]
-        t = tr(inp["preload"])
+        t = tr(inp["preload"], inp.get("tsub"))
         out = t.transform_mapping_matrix(mapping_matrix=Ma)
         w.twice(out, lambda: t.transform_mapping_matrix(mapping_matrix=Ma))
-        other = tr(not inp["preload"]).transform_mapping_matrix(mapping_matrix=arr2(M, P))
-        ok = out.shape == (len(uv), P) and close(other, out, np.array(cs).reshape((1, P)))
+        other = tr(not pre_model).transform_mapping_matrix(mapping_matrix=arr2(M, P))
+        ok = out.shape == (len(uv), P) and out.dtype == np.complex128 and close(other, out, np.array(cs).reshape((1, P)))
         for j in range(P):     # column-wise: the operator applied to column j
             col = np.array(t.visibilities_from(image=aa.Array2D(values=arr2(M, P)[:, j], mask=mask)))
             ok = ok and close(out[:, j], col, cs[j])
-        return fin(dict(base, coq=f"(KTTmm {Pi} {G} {U} {cbool(inp['preload'])} {cnat(P)} {cqm(M)} {ccm(cmout(out))})",
+        return fin(dict(base, coq=f"(KTTmm {Pi} {G} {U} {cbool(pre_model)} {cnat(P)} {cqm(M)} {ccm(cmout(out))})",
                         out=short(out.tolist()), py_ok=ok))
     if op == "inv":
         data = pairs(inp["data"]); noise = pairs(inp["noise"])
-        t = tr(inp["preload"])
-        ds = aa.DatasetInterface(data=w.arg("data", aa.Visibilities(visibilities=cplx(data))),
-                                 noise_map=w.arg("noise_map", aa.VisibilitiesNoiseMap(visibilities=cplx(noise))), transformer=t)
+        dskind = inp.get("dskind", "interface")
+        dv = w.arg("data", mk_vis(aa, data, inp.get("dform", "c16")))
+        nv = w.arg("noise_map", mk_vis(aa, noise, inp.get("nform", "c16"), noise=True))
+        if dskind == "interface":
+            t = tr(inp["preload"], inp.get("tsub"))
+            ds = aa.DatasetInterface(data=dv, noise_map=nv, transformer=t)
+        else:      # the dataset class builds the transformer itself (preload_transform at its default)
+            dcls = subclasses(aa)["ds"] if dskind == "interferometer_sub" else aa.Interferometer
+            ds = dcls(data=dv, noise_map=nv, uv_wavelengths=ua, real_space_mask=mask, transformer_class=aa.TransformerDFT)
+            t = ds.transformer
+        def lin(o, Mk):
+            cls = aa.m.MockLinearObjFuncList if o.get("cls") == "funclist" else aa.m.MockLinearObj
+            return cls(parameters=o["P"], mapping_matrix=Mk, regularization=aa.reg.Constant(coefficient=1.0) if o["reg"] else None)
         objs = []
         for k, o in enumerate(inp["objs"]):
-            Mk = w.arg(f"mapping_matrix[{k}]", arr2(Fm(o["M"]), o["P"]))
-            objs.append(aa.m.MockLinearObj(parameters=o["P"], mapping_matrix=Mk,
-                                           regularization=aa.reg.Constant(coefficient=1.0) if o["reg"] else None))
-        if inp["value"] == "default":
-            settings = aa.SettingsInversion(use_w_tilde=False)
-        else:
-            settings = aa.SettingsInversion(use_w_tilde=False, no_regularization_add_to_curvature_diag_value=float(F(inp["value"])))
-        value = frac(settings.no_regularization_add_to_curvature_diag_value)
-        def make():
-            if inp["factory"]: return aa.Inversion(dataset=ds, linear_obj_list=objs, settings=settings)
-            return aa.InversionInterferometerMapping(dataset=ds, linear_obj_list=objs, settings=settings)
+            objs.append(lin(o, w.arg(f"mapping_matrix[{k}]", as_dt(arr2(Fm(o["M"]), o["P"]), o.get("dt")))))
+        if inp.get("settings") == "omitted": settings = None        # the shared default SettingsInversion() / Preloads() objects
+        elif inp["value"] == "default": settings = aa.SettingsInversion(use_w_tilde=False)
+        else: settings = aa.SettingsInversion(use_w_tilde=False, no_regularization_add_to_curvature_diag_value=float(F(inp["value"])))
+        skw = {} if settings is None else {"settings": settings}
+        pre_obj = aa.Preloads() if inp.get("preloads") == "explicit" else None    # (g) one caller-owned Preloads object for ALL inversions of this case
+        if pre_obj is not None: skw["preloads"] = pre_obj
+        pfp = fingerprint(pre_obj)
+        value = frac((settings or aa.SettingsInversion()).no_regularization_add_to_curvature_diag_value)
+        sfp = fingerprint(settings)
+        def make(ds_=None, objs_=None):
+            f = aa.Inversion if inp["factory"] else aa.InversionInterferometerMapping
+            return f(dataset=ds_ or ds, linear_obj_list=objs_ or objs, **skw)
         inv = make()
         ok = type(inv).__name__ == "InversionInterferometerMapping"
         # order of first access varies: F before D before T, or T, D, F
@@ -631,6 +957,7 @@ def run_class(aa, inp, base):
             Fm_ = np.array(inv.curvature_matrix); D = np.array(inv.data_vector); T = np.array(inv.operated_mapping_matrix)
         else:
             T = np.array(inv.operated_mapping_matrix); D = np.array(inv.data_vector); Fm_ = np.array(inv.curvature_matrix)
+        ok = ok and T.dtype == np.complex128 and D.dtype == np.float64 and Fm_.dtype == np.float64
         # read again through the same object, and through a second inversion over the same transformer / objects
         inv2 = make()
         for a, b in ((T, inv.operated_mapping_matrix), (D, inv.data_vector), (Fm_, inv.curvature_matrix),
@@ -638,29 +965,61 @@ def run_class(aa, inp, base):
             if not same(a, np.array(b)): ok = False
         def kinv(objs_d, data_, noise_, T_, D_, F_):
             cobjs = clist([ctup([cnat(o["P"]), cqm(Fm(o["M"])), cbool(o["reg"])]) for o in objs_d])
-            return (f"(KInv {Pi} {G} {U} {cbool(inp['preload'])} {cobjs} {ccv(data_)} {ccv(noise_)} {cq(value)} "
+            return (f"(KInv {Pi} {G} {U} {cbool(pre_model)} {cobjs} {ccv(data_)} {ccv(noise_)} {cq(value)} "
                     f"{ccm(cmout(T_))} {cqv(rvout(D_))} {cqm(rmout(F_))})")
         coq = kinv(inp["objs"], data, noise, T, D, Fm_)
         extra = []
+        if inp.get("recon"):
+            # sibling observation: the per-object reconstructed visibilities (mapped_reconstructed_data_dict) are the
+            # object's transformed matrix applied to its slice of the reconstruction.  The solver is NOT part of this
+            # property: the reconstruction the implementation found is an INPUT of the KRecon case; when the solve
+            # fails (singular system) the observation is dropped.
+            try:
+                srec = np.array(inv.reconstruction, dtype=float); dd = inv.mapped_reconstructed_data_dict
+            except Exception:
+                srec = None
+            if srec is not None and bool(np.all(np.isfinite(srec))):
+                Tl = [np.array(x) for x in inv.operated_mapping_matrix_list]
+                ok = ok and same(np.hstack(Tl), T) and len(dd) == len(set(id(o) for o in objs))
+                Vs = [dd[ob] for ob in objs]
+                ok = ok and all(isinstance(V_, aa.Visibilities) for V_ in Vs) and srec.shape == (sum(o["P"] for o in inp["objs"]),)
+                cobjs = clist([ctup([cnat(o["P"]), cqm(Fm(o["M"])), cbool(o["reg"])]) for o in inp["objs"]])
+                extra.append(f"(KInvRecon {Pi} {G} {U} {cbool(pre_model)} {cobjs} {cqv(rvout(srec))} "
+                             f"{clist([ccv(cvout(np.array(V_))) for V_ in Vs])})")
+                # F and D re-read AFTER the solve (curvature_reg_matrix adds the regularization matrix in place)
+                for a, b in ((D, inv.data_vector), (Fm_, inv.curvature_matrix), (T, inv.operated_mapping_matrix)):
+                    if not same(a, np.array(b)): ok = False
         sib = inp.get("sibling")
         if sib:
-            # a second inversion in the same interpreter through the SAME transformer object, one ingredient replaced by a
-            # sibling of the same shape (rows rotated / regularization flags flipped): compared with the model independently
+            # a second inversion in the same interpreter through the SAME transformer object (and the same settings object),
+            # one ingredient replaced by a sibling of the same shape (rows rotated / regularization flags flipped):
+            # compared with the model independently
             objs_d = [dict(o) for o in inp["objs"]]; data2, noise2 = data, noise
             if sib == "M": objs_d = [dict(o, M=o["M"][1:] + o["M"][:1]) for o in objs_d]
             elif sib == "reg": objs_d = [dict(o, reg=not o["reg"]) for o in objs_d]
             elif sib == "data": data2 = data[1:] + data[:1] if len(set(data)) > 1 else [(a + 1, b) for a, b in data]
             else: noise2 = noise[1:] + noise[:1] if len(set(noise)) > 1 else [(a * 2, b) for a, b in noise]
-            ds2 = aa.DatasetInterface(data=aa.Visibilities(visibilities=cplx(data2)),
-                                      noise_map=aa.VisibilitiesNoiseMap(visibilities=cplx(noise2)), transformer=t)
-            objs2 = [aa.m.MockLinearObj(parameters=o["P"], mapping_matrix=arr2(Fm(o["M"]), o["P"]),
-                                        regularization=aa.reg.Constant(coefficient=1.0) if o["reg"] else None) for o in objs_d]
-            inv3 = aa.InversionInterferometerMapping(dataset=ds2, linear_obj_list=objs2, settings=settings)
+            if (inp.get("sib_inplace") and sib in ("data", "noise") and np.asarray(dv).dtype == np.complex128
+                    and np.asarray(nv).dtype == np.complex128 and ds.data is dv and ds.noise_map is nv):
+                # (c) the caller EDITS the dataset's own Visibilities / noise map in place and builds a new inversion over the
+                # SAME dataset object: it must see the current contents
+                w.done()
+                if sib == "data": dv[...] = cplx(data2)
+                else: nv[...] = cplx(noise2)
+                w.arg("data", dv); w.arg("noise_map", nv)
+                ds2 = ds
+            else:
+                ds2 = aa.DatasetInterface(data=aa.Visibilities(visibilities=cplx(data2)),
+                                          noise_map=aa.VisibilitiesNoiseMap(visibilities=cplx(noise2)), transformer=t)
+            objs2 = [lin(o, arr2(Fm(o["M"]), o["P"])) for o in objs_d]
+            inv3 = aa.InversionInterferometerMapping(dataset=ds2, linear_obj_list=objs2, **skw)
             extra.append(kinv(objs_d, data2, noise2, np.array(inv3.operated_mapping_matrix), np.array(inv3.data_vector),
                               np.array(inv3.curvature_matrix)))
             # and the first inversion still reads the same
             for a, b in ((D, inv.data_vector), (Fm_, inv.curvature_matrix)):
                 if not same(a, np.array(b)): ok = False
+        if fingerprint(settings) != sfp: ok = False; w.why.append("the caller's SettingsInversion object was modified")
+        if fingerprint(pre_obj) != pfp: ok = False; w.why.append("the caller's Preloads object was modified")
         return fin(dict(base, coq=coq, extra_coq=extra, out=short([D.tolist(), Fm_.tolist()]), py_ok=ok))
     raise ValueError(op)
 
@@ -680,7 +1039,7 @@ def run_hist(aa, inp, base):
         if s == "mask":
             g = st["geom"]
             if st.get("edit") is None:
-                masks.append(mk_mask(aa, g)); mgeom.append(g)
+                masks.append(mk_mask(aa, g, st.get("mhow"))); mgeom.append(g)
             else:                                        # the caller edits ITS Mask2D in place (same shape, scales, origin)
                 k = st["edit"]; old = mgeom[k]["m"]
                 for y, row in enumerate(g["m"]):
@@ -694,6 +1053,7 @@ def run_hist(aa, inp, base):
             if st.get("edit") is None:
                 a = np.array(flm(vals), dtype=float).reshape((len(vals), 2))
                 if st.get("dtype") == "int": a = a.astype(int)
+                elif st.get("dtype") == "f4": a = as_dt(a, "f4")
                 uvarrs.append(lay(a, st.get("lay", "c"))); uvvals.append(vals)
             else:
                 k = st["edit"]; uvarrs[k][...] = np.array(flm(vals)).astype(uvarrs[k].dtype); uvvals[k] = vals
@@ -702,7 +1062,8 @@ def run_hist(aa, inp, base):
         elif s == "new":
             mk, uk = st["mask"], st["uv"]
             w.arg("uv_wavelengths", uvarrs[uk]); w.arg("real_space_mask", masks[mk])
-            t = aa.TransformerDFT(uv_wavelengths=uvarrs[uk], real_space_mask=masks[mk], preload_transform=st["preload"])
+            tcls = subclasses(aa)["tr"] if st.get("tsub") else aa.TransformerDFT
+            t = tcls(uv_wavelengths=uvarrs[uk], real_space_mask=masks[mk], **({} if st.get("omit") and st["preload"] else {"preload_transform": st["preload"]}))
             w.done()
             g = mgeom[mk]; npix = npix_of(g["m"])
             trs.append({"t": t, "mask": mk, "uv": uk, "live": True, "geom": g, "uvv": uvvals[uk], "npix": npix})
@@ -718,7 +1079,7 @@ def run_hist(aa, inp, base):
             if s == "vis":
                 img = Fv(st["img"]); how = st["how"]
                 mobj = masks[T["mask"]] if st.get("own_mask") else mk_mask(aa, g)
-                if reuse is not None and reuse[2] == g and len(reuse[1]) == len(img):
+                if reuse is not None and reuse[2] == g and len(reuse[1]) == len(img) and (reuse[1] == img or np.asarray(reuse[0]).dtype == np.float64):
                     im = reuse[0]                                                   # the same Array2D object again ...
                     if reuse[1] != img:                                             # ... edited in place by the caller
                         if np.asarray(im).ndim == 1:
@@ -727,6 +1088,8 @@ def run_hist(aa, inp, base):
                         else:
                             for j, (y, x) in enumerate(mask_cells(g["m"])):
                                 if Fraction(reuse[1][j]) != img[j]: im[y, x] = float(img[j])
+                elif how == "sub": im = subclasses(aa)["array"](values=np.array(fl(img)), mask=mobj)       # user subclass of Array2D
+                elif how == "dt": im = aa.Array2D(values=as_dt(np.array(fl(img)), st.get("dt")), mask=mobj)   # int64 / float32 values
                 elif how == "native": im = aa.Array2D(values=fl(img), mask=mobj).native
                 elif how == "store_native": im = aa.Array2D(values=fl(img), mask=mobj, store_native=True)
                 elif how == "sum":                                                  # derived by arithmetic: (-img) + (2 img), exact
@@ -734,15 +1097,15 @@ def run_hist(aa, inp, base):
                 elif how == "scaled":
                     c = Fraction(1, 4096); im = aa.Array2D(values=fl([a / c for a in img]), mask=mobj).native * float(c)
                 else: im = aa.Array2D(values=fl(img), mask=mobj)
-                note(same(np.array(im.slim), np.array(fl(img))), "harness: derived image does not carry the intended values")
+                note(same(np.array(im.slim, dtype=float), np.array(fl(img))), "harness: derived image does not carry the intended values")
                 args[st.get("id")] = (im, img, g)
                 w.arg("image", im)
                 out = np.array(t.visibilities_from(image=im)); w.done()
                 csteps.append(f"(@HVis QOpsT {cnat(st['t'])} {cqv(img)})"); couts.append(f"(@OVis QOpsT {ccv(cvout(out))})")
                 outs.append(out.tolist())
             elif s == "tmm":
-                P = st["P"]; M = Fm(st["M"]); how = st["how"]; a = arr2(M, P)
-                if reuse is not None and reuse[0].shape == a.shape:
+                P = st["P"]; M = Fm(st["M"]); how = st["how"]; a = as_dt(arr2(M, P), st.get("dt"))
+                if reuse is not None and reuse[0].shape == a.shape and (reuse[1] == M or reuse[0].dtype == np.float64):
                     Ma = reuse[0]
                     if reuse[1] != M: Ma[...] = a                                   # in-place edit of the caller's matrix
                 elif how in ("f", "view"): Ma = lay(a, how)
@@ -755,14 +1118,15 @@ def run_hist(aa, inp, base):
                 outs.append(out.tolist())
             elif s == "image":
                 vis = pairs(st["vis"]); how = st["how"]
-                if reuse is not None and len(reuse[1]) == len(vis):
+                if reuse is not None and len(reuse[1]) == len(vis) and (reuse[1] == vis or np.asarray(reuse[0]).dtype == np.complex128):
                     V = reuse[0]
                     if reuse[1] != vis:
                         for j, z in enumerate(cplx(vis)): V[j] = z                  # in-place edit of the caller's Visibilities
                 elif how == "sum":
                     V = aa.Visibilities(visibilities=cplx([(-a, -b) for a, b in vis])) + aa.Visibilities(visibilities=cplx([(2 * a, 2 * b) for a, b in vis]))
+                elif how == "form": V = mk_vis(aa, vis, st.get("vform", "c16"))
                 else: V = aa.Visibilities(visibilities=cplx(vis))
-                note(same(np.array(V.in_array), np.array(flm(vis), dtype=float).reshape((len(vis), 2))),
+                note(same(np.array(V.in_array, dtype=float), np.array(flm(vis), dtype=float).reshape((len(vis), 2))),
                      "harness: derived visibilities do not carry the intended values")
                 args[st.get("id")] = (V, vis, None)
                 w.arg("visibilities", V)
